@@ -481,3 +481,186 @@ Proof.
   - destruct o; try discriminate; cbn [apply_op]; try discriminate.
     rewrite set_pixel_spec. destruct (in_displayb p); [discriminate|]. intros H; inversion H. auto.
 Qed.
+
+(* ===== Part 3: affected_area ========================================================================= *)
+
+Definition pt (i : Z) : point := P (i mod SIZE) (i / SIZE).
+
+(* the row-major enumeration of the bounding box is the enumeration of the array indices (closed computation) *)
+Lemma points_bb : points bounding_box = map pt (range 0 NCELLS).
+Proof. vm_compute. reflexivity. Qed.
+
+Lemma pt_idx p : in_display p -> pt (idx p) = p.
+Proof.
+  destruct p as [x y]. unfold in_display, pt, idx; cbn [px py]. change SIZE with 64. intros [Hx Hy].
+  f_equal; lia.
+Qed.
+
+Lemma idx_pt i : 0 <= i < NCELLS -> idx (pt i) = i /\ in_display (pt i).
+Proof.
+  unfold in_display, pt, idx, NCELLS; cbn [px py]. change SIZE with 64. intros H. lia.
+Qed.
+
+Lemma zip_map_same {A B C} (f : A -> B) (g : A -> C) l : zip (map f l) (map g l) = map (fun i => (f i, g i)) l.
+Proof. induction l; cbn [map zip]; congruence. Qed.
+
+Lemma flat_map_map {A B C} (f : B -> list C) (g : A -> B) l : flat_map f (map g l) = flat_map (fun a => f (g a)) l.
+Proof. induction l; cbn [map flat_map]; congruence. Qed.
+
+Lemma touched_points_eq d :
+  touched_points d =
+  flat_map (fun i => match cell (cells d) i with Some _ => [pt i] | None => [] end) (range 0 NCELLS).
+Proof.
+  unfold touched_points, cells_list. rewrite points_bb, zip_map_same, flat_map_map. reflexivity.
+Qed.
+
+Lemma touched_iff d p : touched d p <-> in_display p /\ is_some (gp d p) = true.
+Proof.
+  unfold touched. rewrite get_pixel_gp. split.
+  - intros [v H]. inversion H as [Hg]. split; [|rewrite Hg; reflexivity].
+    unfold gp in Hg. destruct (in_displayb p) eqn:E; [apply in_displayb_spec, E|discriminate].
+  - intros [_ H]. destruct (gp d p) as [v|]; [exists v; reflexivity|discriminate].
+Qed.
+
+Lemma In_touched_points d p : In p (touched_points d) <-> touched d p.
+Proof.
+  rewrite touched_iff, touched_points_eq, in_flat_map. split.
+  - intros [i [Hi Hp]]. apply In_range in Hi. destruct (idx_pt i Hi) as [Hx Hd].
+    destruct (cell (cells d) i) eqn:Ec; [|contradiction]. destruct Hp as [<-|[]].
+    split; [assumption|]. unfold gp. apply in_displayb_spec in Hd. rewrite Hd, Hx, Ec. reflexivity.
+  - intros [Hd Hs]. exists (idx p). split.
+    + apply In_range. pose proof (idx_in_array p Hd) as Ha. unfold in_array in Ha. lia.
+    + unfold gp in Hs. apply in_displayb_spec in Hd. rewrite Hd in Hs.
+      destruct (cell (cells d) (idx p)); [|discriminate]. left. apply pt_idx, in_displayb_spec, Hd.
+Qed.
+
+Lemma aa_fold l t b :
+  fold_left aa_step l (Some t, Some b) = (Some (fold_left component_min l t), Some (fold_left component_max l b)).
+Proof. revert t b; induction l as [|a l IH]; intros t b; cbn [fold_left aa_step]; [reflexivity|apply IH]. Qed.
+
+Lemma fold_min_spec l t :
+  let m := fold_left component_min l t in
+  (px m <= px t /\ (forall p, In p l -> px m <= px p) /\ (px m = px t \/ exists p, In p l /\ px m = px p)) /\
+  (py m <= py t /\ (forall p, In p l -> py m <= py p) /\ (py m = py t \/ exists p, In p l /\ py m = py p)).
+Proof.
+  revert t; induction l as [|a l IH]; intros t; cbn [fold_left In].
+  - cbv zeta. repeat split; try lia; try tauto; left; reflexivity.
+  - specialize (IH (component_min t a)). cbv zeta in *.
+    assert (px (component_min t a) = Z.min (px t) (px a)) as Epx by reflexivity.
+    assert (py (component_min t a) = Z.min (py t) (py a)) as Epy by reflexivity.
+    rewrite Epx, Epy in IH. clear Epx Epy.
+    destruct IH as [[Hx1 [Hx2 Hx3]] [Hy1 [Hy2 Hy3]]].
+    split; (split; [lia|split]).
+    + intros p [<-|Hp]; [lia|apply Hx2, Hp].
+    + destruct Hx3 as [E|[p [Hp E]]]; [|right; exists p; auto].
+      destruct (Z.min_spec (px t) (px a)) as [[_ Em]|[_ Em]]; [left; lia|right; exists a; split; [auto|lia]].
+    + intros p [<-|Hp]; [lia|apply Hy2, Hp].
+    + destruct Hy3 as [E|[p [Hp E]]]; [|right; exists p; auto].
+      destruct (Z.min_spec (py t) (py a)) as [[_ Em]|[_ Em]]; [left; lia|right; exists a; split; [auto|lia]].
+Qed.
+
+Lemma fold_max_spec l t :
+  let m := fold_left component_max l t in
+  (px t <= px m /\ (forall p, In p l -> px p <= px m) /\ (px m = px t \/ exists p, In p l /\ px m = px p)) /\
+  (py t <= py m /\ (forall p, In p l -> py p <= py m) /\ (py m = py t \/ exists p, In p l /\ py m = py p)).
+Proof.
+  revert t; induction l as [|a l IH]; intros t; cbn [fold_left In].
+  - cbv zeta. repeat split; try lia; try tauto; left; reflexivity.
+  - specialize (IH (component_max t a)). cbv zeta in *.
+    assert (px (component_max t a) = Z.max (px t) (px a)) as Epx by reflexivity.
+    assert (py (component_max t a) = Z.max (py t) (py a)) as Epy by reflexivity.
+    rewrite Epx, Epy in IH. clear Epx Epy.
+    destruct IH as [[Hx1 [Hx2 Hx3]] [Hy1 [Hy2 Hy3]]].
+    split; (split; [lia|split]).
+    + intros p [<-|Hp]; [lia|apply Hx2, Hp].
+    + destruct Hx3 as [E|[p [Hp E]]]; [|right; exists p; auto].
+      destruct (Z.max_spec (px t) (px a)) as [[_ Em]|[_ Em]]; [right; exists a; split; [auto|lia]|left; lia].
+    + intros p [<-|Hp]; [lia|apply Hy2, Hp].
+    + destruct Hy3 as [E|[p [Hp E]]]; [|right; exists p; auto].
+      destruct (Z.max_spec (py t) (py a)) as [[_ Em]|[_ Em]]; [right; exists a; split; [auto|lia]|left; lia].
+Qed.
+
+(* affected_area over an arbitrary list of touched points *)
+Definition aa_of (l : list point) : rect :=
+  match fold_left aa_step l (None, None) with
+  | (Some tl, Some br) => with_corners tl br
+  | _ => rect_zero
+  end.
+
+Lemma aa_of_spec l :
+  match l with
+  | [] => aa_of l = rect_zero
+  | _ => exists x0 y0 x1 y1,
+      (forall q, contains (aa_of l) q = true <-> x0 <= px q <= x1 /\ y0 <= py q <= y1) /\
+      (forall p, In p l -> x0 <= px p <= x1 /\ y0 <= py p <= y1) /\
+      (exists p, In p l /\ px p = x0) /\ (exists p, In p l /\ py p = y0) /\
+      (exists p, In p l /\ px p = x1) /\ (exists p, In p l /\ py p = y1) /\
+      aa_of l = R (P x0 y0) (S (x1 - x0 + 1) (y1 - y0 + 1))
+  end.
+Proof.
+  destruct l as [|a l]; [reflexivity|].
+  unfold aa_of. cbn [fold_left aa_step]. rewrite aa_fold.
+  pose proof (fold_min_spec l a) as Hmin. pose proof (fold_max_spec l a) as Hmax. cbv zeta in Hmin, Hmax.
+  set (m := fold_left component_min l a) in *. set (M := fold_left component_max l a) in *.
+  destruct Hmin as [[Hx1 [Hx2 Hx3]] [Hy1 [Hy2 Hy3]]]. destruct Hmax as [[HX1 [HX2 HX3]] [HY1 [HY2 HY3]]].
+  exists (px m), (py m), (px M), (py M).
+  split; [|split; [|split; [|split; [|split; [|split]]]]].
+  - intros q. rewrite with_corners_spec. lia.
+  - intros p [<-|Hp]; [lia|]. specialize (Hx2 p Hp). specialize (Hy2 p Hp). specialize (HX2 p Hp). specialize (HY2 p Hp). lia.
+  - destruct Hx3 as [E|[p [Hp E]]]; [exists a|exists p]; split; cbn [In]; auto.
+  - destruct Hy3 as [E|[p [Hp E]]]; [exists a|exists p]; split; cbn [In]; auto.
+  - destruct HX3 as [E|[p [Hp E]]]; [exists a|exists p]; split; cbn [In]; auto.
+  - destruct HY3 as [E|[p [Hp E]]]; [exists a|exists p]; split; cbn [In]; auto.
+  - unfold with_corners, size_from_bounding_box. cbn [px py]. f_equal; f_equal; lia.
+Qed.
+
+Lemma affected_area_aa_of d : affected_area d = aa_of (touched_points d).
+Proof. reflexivity. Qed.
+
+(* C20 affected_area_tight *)
+Theorem affected_area_none d : (forall p, ~ touched d p) -> affected_area d = rect_zero.
+Proof.
+  intros H. rewrite affected_area_aa_of. destruct (touched_points d) as [|a l] eqn:E; [reflexivity|].
+  exfalso. apply (H a). apply In_touched_points. rewrite E. left. reflexivity.
+Qed.
+
+Theorem affected_area_contains d p : touched d p -> contains (affected_area d) p = true.
+Proof.
+  intros H. apply In_touched_points in H. rewrite affected_area_aa_of.
+  pose proof (aa_of_spec (touched_points d)) as S. destruct (touched_points d) as [|a l]; [contradiction|].
+  destruct S as [x0 [y0 [x1 [y1 [Hc [Hall _]]]]]]. apply Hc, Hall, H.
+Qed.
+
+Theorem affected_area_least d r :
+  (forall p, touched d p -> contains r p = true) ->
+  forall q, contains (affected_area d) q = true -> contains r q = true.
+Proof.
+  intros Hr q. rewrite affected_area_aa_of.
+  pose proof (aa_of_spec (touched_points d)) as S.
+  assert (forall p, In p (touched_points d) -> contains r p = true) as Hr' by (intros p Hp; apply Hr, In_touched_points, Hp).
+  destruct (touched_points d) as [|a l].
+  - rewrite S. intros H. apply contains_spec in H. unfold rect_zero in H; cbn [tl sz px py sw sh] in H. lia.
+  - destruct S as [x0 [y0 [x1 [y1 [Hc [_ [[p1 [I1 E1]] [[p2 [I2 E2]] [[p3 [I3 E3]] [[p4 [I4 E4]] _]]]]]]]]]].
+    rewrite Hc. intros Hq.
+    pose proof (proj1 (contains_spec r p1) (Hr' p1 I1)). pose proof (proj1 (contains_spec r p2) (Hr' p2 I2)).
+    pose proof (proj1 (contains_spec r p3) (Hr' p3 I3)). pose proof (proj1 (contains_spec r p4) (Hr' p4 I4)).
+    apply contains_spec. lia.
+Qed.
+
+(* the explicit form: top-left = (min x, min y), size = (max x - min x + 1, max y - min y + 1), each side attained *)
+Theorem affected_area_sides d :
+  (exists p, touched d p) ->
+  exists x0 y0 x1 y1,
+    affected_area d = R (P x0 y0) (S (x1 - x0 + 1) (y1 - y0 + 1)) /\
+    (forall p, touched d p -> x0 <= px p <= x1 /\ y0 <= py p <= y1) /\
+    (exists p, touched d p /\ px p = x0) /\ (exists p, touched d p /\ py p = y0) /\
+    (exists p, touched d p /\ px p = x1) /\ (exists p, touched d p /\ py p = y1).
+Proof.
+  intros [p0 H0]. apply In_touched_points in H0. rewrite affected_area_aa_of.
+  pose proof (aa_of_spec (touched_points d)) as S.
+  assert (forall p, In p (touched_points d) <-> touched d p) as HI by (intros; apply In_touched_points).
+  destruct (touched_points d) as [|a l]; [contradiction|].
+  destruct S as [x0 [y0 [x1 [y1 [Hc [Hall [[p1 [I1 E1]] [[p2 [I2 E2]] [[p3 [I3 E3]] [[p4 [I4 E4]] Heq]]]]]]]]]].
+  exists x0, y0, x1, y1. split; [assumption|]. split; [intros p Hp; apply Hall, HI, Hp|].
+  repeat split; [exists p1|exists p2|exists p3|exists p4]; split; try assumption; apply HI; assumption.
+Qed.
